@@ -169,8 +169,16 @@ def run(ctx):
         for fam in ("v4", "v6"):
             if dst == "param1." + fam and k == "param2.%s.[].0" % fam and v == "param2.%s.[].1" % fam:
                 fams.add(fam)
-    ctx.check(fams == {"v4", "v6"} and len(inserts) == 2, "C12.4", "Hosts::merge", "self.vN.insert(name, address) for every entry of other.vN (later wins)",
-              "Hosts::merge inserts %s" % [[A.path_str(x) for x in hmr.call_expr(t, b)[2]] for b, t in inserts], hm.loc())
+    # `self.vN.extend(other.vN)` is the same thing: Extend for HashMap inserts every pair, replacing existing keys
+    extends = [(b, t) for b, t in hm.calls() if (t.get("callee") or "").endswith("Extend::extend") or (t.get("resolved") or "").endswith("HashMap<K, V, S, A> as std::iter::Extend<(K, V)>>::extend")]
+    for b, t in extends:
+        e = hmr.call_expr(t, b)
+        dst, src = A.path_str(e[2][0]), A.path_str(e[2][1])
+        for fam in ("v4", "v6"):
+            if dst == "param1." + fam and src == "param2." + fam:
+                fams.add(fam)
+    ctx.check(fams == {"v4", "v6"} and len(inserts) + len(extends) == 2, "C12.4", "Hosts::merge", "self.vN.insert(name, address) for every entry of other.vN (later wins)",
+              "Hosts::merge inserts %s / extends %s" % ([[A.path_str(x) for x in hmr.call_expr(t, b)[2]] for b, t in inserts], [[A.path_str(x) for x in hmr.call_expr(t, b)[2]] for b, t in extends]), hm.loc())
     hd = prog.fn("dns_types::hosts::deserialise::<impl dns_types::hosts::types::Hosts>::deserialise") if "dns_types::hosts::deserialise::<impl dns_types::hosts::types::Hosts>::deserialise" in prog.fns else prog.find("Hosts>::deserialise")
     hdr = A.Resolver(hd)
     hdc = A.Conds(hd, hdr)
@@ -219,7 +227,7 @@ def run(ctx):
     srcs = sorted(A.path_str(e[2][0]) or A.show(e[2][0]) for e in froms)
     ctx.check(srcs == ["^hosts_files", "^zone_files"], "C12.5", "loader:lists-start-with-explicit-files", "path lists start as the explicit file arguments",
               "path lists initialised from %s" % srcs, lz.loc())
-    apps = [lzr.call_expr(t, b) for b, t in A.call_blocks(lz, A.name_endswith("Vec::<T, A>::append"))]
+    apps = [lzr.call_expr(t, b) for b, t in A.vec_tail_appends(lz)]
     ok = len(apps) == 2 and all(A.calls_in(e[2][1], lambda n: n == FS + "get_files_from_dir") for e in apps)
     ctx.check(ok, "C12.5", "loader:dirs-appended", "each directory's sorted listing is appended", "directory listings are not appended to the path lists", lz.loc())
     revs = [t for _, t in lz.calls() if (t.get("callee") or "").endswith("Iterator::rev")]
